@@ -84,8 +84,8 @@ def cfg_repr(tier, seed):
         k = [rng.randint(-kmax[0], kmax[0]), rng.randint(-kmax[1], kmax[1])]
         if rng.random() < 0.3:
             k[rng.randint(0, 1)] = 0
-        rep = rng.choice(['tilt-plane', 'tilt-plane', 'wavefront-tilt', 'two-tilts', 'segments'])
-        if rep == 'segments' and n[0] * n[1] < 2:
+        rep = rng.choice(['tilt-plane', 'tilt-plane', 'wavefront-tilt', 'two-tilts', 'segments', 'wtilt-segments-tilt'])
+        if rep in ('segments', 'wtilt-segments-tilt') and n[0] * n[1] < 2:
             rep = 'tilt-plane'
         out.append({'n': list(n), 'shape': S, 'prop': P, 'os': os, 'k': k, 'rep': rep, 'scales': rng.choice(['axis', 'axis', 'scalar'])})
     out.append({'n': [2, 2], 'shape': [2, 2], 'prop': [2, 2], 'os': 1, 'k': [0, 0], 'rep': 'tilt-plane', 'scales': 'axis'})
@@ -133,6 +133,7 @@ def run_repr(W, cfg):
     kr, kc = cfg['k']
     rep = cfg['rep']
     nseg = 2 if rep == 'segments' else 1
+    split_mask = rep in ('segments', 'wtilt-segments-tilt')
     # displacement (rows, cols) in oversampled output samples = k + s; tilt angles that produce it
     segs = []
     cells = [(r, c) for r in range(nr) for c in range(nc)]
@@ -140,6 +141,7 @@ def run_repr(W, cfg):
         segs = [cells[::2], cells[1::2]]
     else:
         segs = [cells]
+    mask_segs = [cells[::2], cells[1::2]] if split_mask else [cells]
     disp, angles = [], []
     for g in range(nseg):
         sr, sc = _sub(W, f'sr{g}', kr), _sub(W, f'sc{g}', kc)
@@ -154,9 +156,9 @@ def run_repr(W, cfg):
         for (r, c) in seg:
             ramp[r, c] = angles[g][0] * ((r - nr // 2) * dx[0]) - angles[g][1] * ((c - nc // 2) * dx[1])
     mask2 = rnp.ones((nr, nc), dtype=int)
-    if rep == 'segments':
+    if split_mask:
         mask = rnp.zeros((2, nr, nc), dtype=int)
-        for g, seg in enumerate(segs):
+        for g, seg in enumerate(mask_segs):
             for (r, c) in seg:
                 mask[g, r, c] = 1
     else:
@@ -172,6 +174,13 @@ def run_repr(W, cfg):
     elif rep == 'two-tilts':
         h = W.real('split')
         w = lt.Wavefront(lam) * lt.Tilt(x=angles[0][0] * h, y=angles[0][1] * (1 - h)) * p_flat * lt.Tilt(x=angles[0][0] * (1 - h), y=angles[0][1] * h)
+    elif rep == 'wtilt-segments-tilt':
+        # part of the tilt on the wavefront, a tilt-free segmented pupil, the rest on a Tilt plane; the intermediate
+        # wavefront is also handed to a second, different Tilt plane first (fan-out must not disturb it)
+        h = W.real('split')
+        w0 = lt.Wavefront(lam, tilt=[angles[0][0] * h, angles[0][1] * h]) * p_flat
+        _other = w0 * lt.Tilt(x=W.real('ox'), y=W.real('oy'))
+        w = w0 * lt.Tilt(x=angles[0][0] * (1 - h), y=angles[0][1] * (1 - h))
     else:
         p_flat.tilt = [lt.Tilt(x=a[0], y=a[1]) for a in angles]
         w = lt.Wavefront(lam) * p_flat
